@@ -1,6 +1,6 @@
 """C01 (record-keeping clauses, modular): Builder::FinishCommand and Builder::StartEdge (props/builderunit.py)."""
 from engine.selftest import subst
-from props import builderjobs, scanjobs
+from props import builderjobs, scanjobs, outdirtyjobs
 
 ID = "C01"
 USES_CPP = True
@@ -15,7 +15,8 @@ MANIFEST = {
                 "dependency extraction records nothing. Builder::StartEdge takes the start time (lock file touched, then stat-ed) before starting the command. "
                 "Scan side (DependencyScan::RecomputeNodeDirty, real text, callees by contract): every output of a statement is marked dirty exactly when a declared or discovered input, an output check or "
                 "missing dependency information says so; validation targets are collected; recorded dependencies are loaded on the first visit - except, KNOWN FINDING (listed under C10), when the statement is already dirty. "
-                "NOT decided: RecomputeOutputDirty / RecomputeEdgesInputsDirty themselves (C++17), depfile/dyndep loading, 'equals a clean build' as a whole-history statement.",
+                "Output rule (RecomputeOutputsDirtyCache, real text): a statement is out of date exactly when the documented rule says so (see C02); a phony alias that does not exist takes over its newest input's mtime. "
+                "NOT decided: RecomputeEdgesInputsDirty and the loaders (C++17), depfile/dyndep loading, 'equals a clean build' as a whole-history statement.",
         "design_ref": "DESIGN.md 5 C01",
     },
     "level_note": "trusted: " + "; ".join(builderjobs.TRUST),
@@ -24,7 +25,7 @@ MANIFEST = {
 
 
 def jobs(tier, mutant=None):
-    return builderjobs.select(tier, ["B1", "B2"], r'\bC01\b', mutant) + scanjobs.select(tier, ["S1"], r'\bC01\b', mutant)
+    return builderjobs.select(tier, ["B1", "B2"], r'\bC01\b', mutant) + scanjobs.select(tier, ["S1"], r'\bC01\b', mutant) + outdirtyjobs.select(tier, ["O1", "O3"], r'\bC01\b', mutant)
 
 
 def _m(target, old, new):
@@ -40,6 +41,7 @@ MUTANTS = [
     ("start_time_after_command", _m("StartEdge", "  edge->command_start_time_ = build_start;\n", "")),
     ("only_requested_output_marked_dirty", _m("RecomputeNodeDirty", "    for (auto o : edge->outputs_)\n      o->MarkDirty();", "    node->MarkDirty();")),
     ("validations_dropped", _m("RecomputeNodeDirty", "  validation_nodes->insert(validation_nodes->end(),\n      edge->validations_.begin(), edge->validations_.end());\n", "")),
+    ("phony_mtime_not_propagated", _m("Phony", "    output->UpdatePhonyMtime(most_recent_input->mtime());", "")),
     ("first_output_deps_only", _m("FinishCommand", "         o != edge->outputs_.end(); ++o) {\n      TimeStamp deps_mtime", "         o != edge->outputs_.begin() + 1; ++o) {\n      TimeStamp deps_mtime")),
 ]
 
@@ -55,7 +57,7 @@ def describe(tier):
     return {
         "functions": ["build.cc:Builder::FinishCommand", "build.cc:Builder::StartEdge", "graph.cc:DependencyScan::RecomputeNodeDirty"],
         "checker_cmd": "goto-cc -std=c++11 unit.cc (slices + stubs + harness); cbmc a.gb --unwind N --unwinding-assertions + checks",
-        "trusted_base": builderjobs.TRUST + scanjobs.TRUST,
+        "trusted_base": builderjobs.TRUST + scanjobs.TRUST + outdirtyjobs.TRUST,
         "bounds": {t: "edges with 1-2 outputs; all flags, statuses, times and callee failures symbolic" for t in ("quick", "thorough")},
         "assumptions": builderjobs.ASSUME + scanjobs.ASSUME,
         "silent": ["dirty computation (RecomputeNodeDirty/RecomputeOutputDirty)", "depfile / deps-log / dyndep loading", "manifest regeneration, interrupted builds, histories"],
